@@ -4,7 +4,7 @@
     an arbitrary function: nothing is assumed of it, so a refusal can only be
     escaped through an *exhibited* collision. *)
 From Coq Require Import List NArith Bool Arith.
-From Atlas Require Import Base.Bytes Exec.ExecModel Exec.ExecProofs.
+From Atlas Require Import Base.Bytes Exec.ExecModel Exec.ExecProofs Exec.RunModel Exec.PendingProofs Exec.StoreModel Exec.StoreProofs.
 Import ListNotations.
 
 Section C12.
@@ -55,11 +55,282 @@ Theorem C12_tail_edit_resumes :
     (forall v', v' <> f_version f -> tbl_get t' v' = tbl_get t v').
 Proof. exact (C12_tail_lemma hash hash_eqb HS hash_eqb_spec). Qed.
 
+(** ** The storage layer (EntRevisions) under the executor -- M-STORE.
+
+    The three theorems above are about [execute] over a table [t] with
+    [tbl_get] / [tbl_put].  What the CLI runs is [Execute] over [EntRevisions];
+    [execute_st] is that composition, every storage call may fail.  The
+    contract of the store the theorems rest on is exactly:
+      (a) a lookup returns the stored row with all its columns, NotExist
+          exactly when there is no row, and the error itself when the SELECT
+          fails (never NotExist for an error);
+      (b) an upsert overwrites every column of the row (what is read back is
+          the revision written) and no other row; a failed upsert changes nothing;
+      (c) ReadRevisions lists the rows by version ([read_revisions], M-PEND).
+    (a) and (b) are theorems of the model of EntRevisions below; that the real
+    EntRevisions has them is what stages cli / fault of the tie test through the
+    real binary; [C12_lax_lookup_refuted] shows (a) is needed. *)
+
+(** (a) *)
+Theorem C12_store_read_exact :
+  forall (t : list (rev hash)) (fs : list bool) (v : bytes),
+  read_revision hash t fs v =
+  (if hd false fs then RdError
+   else match tbl_get t v with Some r => RdRow r | None => RdNotExist end, tl fs).
+Proof. exact (read_revision_spec hash). Qed.
+
+(** (b) *)
+Theorem C12_store_upsert_overwrites :
+  forall (t : list (rev hash)) fs r ok t' fs' e,
+  write t fs r = (ok, t', fs', e) ->
+  (ok = true -> forall fs2, hd false fs2 = false ->
+     fst (read_revision hash t' fs2 (r_version r)) = RdRow r) /\
+  (ok = false -> t' = t) /\
+  (forall v, v <> r_version r -> tbl_get t' v = tbl_get t v).
+Proof.
+  intros t fs r ok t' fs' e W. split; [|split].
+  - intros Hok fs2 Hf. exact (write_then_read hash t fs r ok t' fs' e fs2 W Hok Hf).
+  - exact (write_fail_unchanged hash t fs r ok t' fs' e W).
+  - intros v Hv. exact (write_then_read_other hash t fs r ok t' fs' e v W Hv).
+Qed.
+
+(** (c) ReadRevisions (one row per version, the primary key) lists exactly the
+    stored rows, strictly ordered by version -- what [Executor.Pending] (M-PEND,
+    C11) assumes of its reader when it takes the last element as the latest revision. *)
+Theorem C12_store_lists_by_version :
+  forall (t : list (rev hash)) (fs : list bool),
+  NoDup (map (@r_version hash) t) ->
+  match fst (read_revisions_f hash t fs) with
+  | Some l => hd false fs = false /\ sorted_revs l /\ (forall y, In y l <-> In y t)
+  | None => hd false fs = true
+  end.
+Proof.
+  intros t fs Hnd. unfold read_revisions_f. rewrite (pop_hd_tl fs).
+  destruct (hd false fs); cbn [fst]; [reflexivity|].
+  split; [reflexivity|]. split; [exact (read_revisions_sorted hash t Hnd)|].
+  intros y. exact (read_revisions_In hash t y).
+Qed.
+
+(** 4. Reading the revision fails (a transient error of the SELECT): the run
+    fails with that error, executes nothing, writes nothing, the table is
+    unchanged -- and no following file runs, in both transaction modes. *)
+Theorem C12_read_error_refuses :
+  forall (txfile : bool) (f : file) (rest : list file) (t : list (rev hash)) (fs : list bool),
+  hd false fs = true ->
+  execute_st hash hash_eqb HS f t fs = (SReadErr, t, tl fs, []) /\
+  apply_files hash hash_eqb HS txfile (f :: rest) t fs = (SReadErr, t, tl fs, [], []).
+Proof. exact (C12_read_error_lemma hash hash_eqb HS). Qed.
+
+(** 5. = 1 over the store: the applied part was edited -- whatever storage call
+    fails (the lookup, the first write, the deferred write), no statement is
+    executed and the table is what it was; the run never ends as Done; with no
+    fault on the lookup and the first write it is HistoryChanged. *)
+Theorem C12_refuse_any_storage_fault :
+  forall (t : list (rev hash)) (fs : list bool) (f : file) (r : rev hash) (old : list bytes),
+  tbl_get t (f_version f) = Some r ->
+  0 < r_applied r -> recorded hash HS r old ->
+  firstn (r_applied r) (f_stmts f) <> firstn (r_applied r) old ->
+  forall o t' fs' es, execute_st hash hash_eqb HS f t fs = (o, t', fs', es) ->
+  collision_at hash HS old (f_stmts f) (r_applied r) \/
+  (exec_events es = [] /\ t' = t /\ o <> SExec ODone /\
+   (hd false fs = true -> o = SReadErr /\ es = []) /\
+   (hd false fs = false -> hd false (tl fs) = true -> o = SExec OWriteErr) /\
+   (hd false fs = false -> hd false (tl fs) = false ->
+      exists i, o = SExec (OHistory i) /\ 1 <= i <= r_applied r)).
+Proof. exact (C12_refuse_st_lemma hash hash_eqb HS hash_eqb_spec). Qed.
+
+(** 6. ... and the file loop of `atlas migrate apply` stops at the refused file:
+    nothing of it or of any following file is executed or committed, the
+    table is what it was, under --tx-mode none and file, for every fault stream. *)
+Theorem C12_refuse_stops_apply :
+  forall (txfile : bool) (t : list (rev hash)) (fs : list bool) (f : file) (rest : list file)
+         (r : rev hash) (old : list bytes),
+  tbl_get t (f_version f) = Some r ->
+  0 < r_applied r -> recorded hash HS r old ->
+  firstn (r_applied r) (f_stmts f) <> firstn (r_applied r) old ->
+  forall o t' fs' es j, apply_files hash hash_eqb HS txfile (f :: rest) t fs = (o, t', fs', es, j) ->
+  collision_at hash HS old (f_stmts f) (r_applied r) \/
+  (exec_events es = [] /\ j = [] /\ t' = t /\ o <> SExec ODone).
+Proof. exact (C12_refuse_apply_lemma hash hash_eqb HS hash_eqb_spec). Qed.
+
+(** 7. = 3 over the store. *)
+Theorem C12_tail_edit_resumes_store :
+  forall (t : list (rev hash)) (f : file) (r : rev hash) (old : list bytes),
+  tbl_get t (f_version f) = Some r -> recorded hash HS r old ->
+  firstn (r_applied r) (f_stmts f) = firstn (r_applied r) old ->
+  exists t' es r',
+    execute_st hash hash_eqb HS f t [] = (SExec ODone, t', [], es) /\
+    journal es = map (pair (f_version f)) (skipn (r_applied r) (f_stmts f)) /\
+    tbl_get t' (f_version f) = Some r' /\
+    r_applied r' = length (f_stmts f) /\ r_total r' = length (f_stmts f) /\ r_hashes r' = [] /\
+    (forall v', v' <> f_version f -> tbl_get t' v' = tbl_get t v').
+Proof. exact (C12_tail_st_lemma hash hash_eqb HS hash_eqb_spec). Qed.
+
+(** 8. = 2 over the store: no panic, whatever the storage does. *)
+Theorem C12_no_panic_store :
+  forall (f : file) (t : list (rev hash)) (fs : list bool),
+  (forall r, tbl_get t (f_version f) = Some r -> r_applied r <= length (r_hashes r)) ->
+  forall o t' fs' es, execute_st hash hash_eqb HS f t fs = (o, t', fs', es) -> o <> SExec OPanic.
+Proof. exact (C12_no_panic_st_lemma hash hash_eqb HS hash_eqb_spec). Qed.
+
+(** 9. The whole command, `atlas migrate apply` ([cli_apply] = migrateApplyRun from
+    Pending on: two ReadRevisions, then the file loop), on a one-file directory
+    whose partially applied file had its applied part edited: for every fault
+    stream (lookups, listings, upserts), both transaction modes, every executor
+    configuration and count argument, nothing is executed or committed, the table
+    is what it was, and the command does not report success. *)
+Theorem C12_refuse_cli_apply :
+  forall (txfile : bool) (c : PendingModel.cfg) (n : nat) (fs : list bool) (f : file) (r : rev hash) (old : list bytes),
+  f_ckpt f = false -> r_version r = f_version f -> r_applied r <> r_total r ->
+  0 < r_applied r -> recorded hash HS r old ->
+  firstn (r_applied r) (f_stmts f) <> firstn (r_applied r) old ->
+  forall o t' fs' es j, cli_apply hash hash_eqb HS txfile c n [f] [r] fs = (o, t', fs', es, j) ->
+  collision_at hash HS old (f_stmts f) (r_applied r) \/
+  (exec_events es = [] /\ j = [] /\ t' = [r] /\
+   o <> CRun (SExec ODone) /\ o <> CPend PendingModel.PNoPending).
+Proof. exact (C12_refuse_cli_lemma hash hash_eqb HS hash_eqb_spec). Qed.
+
+(** 10. The whole command when only the tail was edited (or nothing), no fault:
+    `atlas migrate apply` executes exactly the new tail, leaves one complete
+    revision (Applied = Total = new statement count, no partial hashes), and
+    the next `atlas migrate apply` finds nothing to do and changes nothing --
+    for both transaction modes, every executor configuration and count argument. *)
+Theorem C12_tail_edit_cli_apply :
+  forall (txfile : bool) (c : PendingModel.cfg) (n : nat) (f : file) (r : rev hash) (old : list bytes),
+  f_ckpt f = false -> r_version r = f_version f -> r_applied r <> r_total r ->
+  recorded hash HS r old ->
+  firstn (r_applied r) (f_stmts f) = firstn (r_applied r) old ->
+  exists es r',
+    cli_apply hash hash_eqb HS txfile c n [f] [r] [] =
+      (CRun (SExec ODone), [r'], [], es, map (pair (f_version f)) (skipn (r_applied r) (f_stmts f))) /\
+    r_version r' = f_version f /\
+    r_applied r' = length (f_stmts f) /\ r_total r' = length (f_stmts f) /\ r_hashes r' = [] /\
+    cli_apply hash hash_eqb HS txfile c n [f] [r'] [] = (CPend PendingModel.PNoPending, [r'], [], [], []).
+Proof. exact (C12_tail_cli_lemma hash hash_eqb HS hash_eqb_spec). Qed.
+
+(** 11. Whatever fails in the storage layer or in the statements, for every
+    file (edited or not) and every table: the revision of the file stored
+    before [Execute] is still stored afterwards and its [Applied] did not
+    decrease -- it is never replaced by a fresh one -- and the statements
+    executed are a prefix of the part of the file after the recorded progress
+    (nothing before statement Applied+1 is ever run again). *)
+Theorem C12_progress_never_lost :
+  forall (f : file) (t : list (rev hash)) (fs : list bool) (r : rev hash),
+  tbl_get t (f_version f) = Some r ->
+  forall o t' fs' es, execute_st hash hash_eqb HS f t fs = (o, t', fs', es) ->
+  (exists r', tbl_get t' (f_version f) = Some r' /\ r_applied r <= r_applied r') /\
+  exists m, journal es = map (pair (f_version f)) (firstn m (skipn (r_applied r) (f_stmts f))).
+Proof. exact (C12_progress_lemma hash hash_eqb HS). Qed.
+
+(** 12, 13. End to end, without any premise on the stored hashes: [after_attempts
+    f_old t] = the table was reached from one without a revision of the file by
+    any number of earlier attempts on the unchanged file, each with an arbitrary
+    fault stream (statements, lookups, upserts), attempted only while pending.
+    If the file is then partially applied and
+    - its applied part is edited: the next attempt, under every fault stream,
+      executes nothing, leaves the table as it is and does not end as Done (or
+      exhibits a collision between the two versions of the file);
+    - only its tail is edited: the fault-free next attempt runs exactly the new
+      tail and leaves a complete revision. *)
+Theorem C12_end_to_end_refuse :
+  forall (f_old f_new : file) (t : list (rev hash)) (r : rev hash),
+  after_attempts hash hash_eqb HS f_old t -> f_version f_new = f_version f_old ->
+  tbl_get t (f_version f_old) = Some r -> 0 < r_applied r -> r_applied r <> r_total r ->
+  firstn (r_applied r) (f_stmts f_new) <> firstn (r_applied r) (f_stmts f_old) ->
+  forall fs o t' fs' es, execute_st hash hash_eqb HS f_new t fs = (o, t', fs', es) ->
+  collision_at hash HS (f_stmts f_old) (f_stmts f_new) (r_applied r) \/
+  (exec_events es = [] /\ t' = t /\ o <> SExec ODone).
+Proof. exact (C12_end_to_end_refuse_lemma hash hash_eqb HS hash_eqb_spec). Qed.
+
+Theorem C12_end_to_end_tail :
+  forall (f_old f_new : file) (t : list (rev hash)) (r : rev hash),
+  after_attempts hash hash_eqb HS f_old t -> f_version f_new = f_version f_old ->
+  tbl_get t (f_version f_old) = Some r -> r_applied r <> r_total r ->
+  firstn (r_applied r) (f_stmts f_new) = firstn (r_applied r) (f_stmts f_old) ->
+  exists t' es r',
+    execute_st hash hash_eqb HS f_new t [] = (SExec ODone, t', [], es) /\
+    journal es = map (pair (f_version f_new)) (skipn (r_applied r) (f_stmts f_new)) /\
+    tbl_get t' (f_version f_new) = Some r' /\
+    r_applied r' = length (f_stmts f_new) /\ r_total r' = length (f_stmts f_new) /\ r_hashes r' = [] /\
+    (forall v', v' <> f_version f_new -> tbl_get t' v' = tbl_get t v').
+Proof. exact (C12_end_to_end_tail_lemma hash hash_eqb HS hash_eqb_spec). Qed.
+
+(** 14. Attribution. The first [j] statements are as recorded and statement
+    [j+1] -- one of the applied ones, whichever attempt applied it -- is not (it was
+    edited, or the file now ends before it): the history-changed error names
+    exactly statement [j+1] (Go: HistoryChangedError.Stmt), or the two versions
+    of the file collide under [HS] at that very prefix. *)
+Theorem C12_refuse_names_first_edited :
+  forall (t : list (rev hash)) (fs : list bool) (f : file) (r : rev hash) (old : list bytes) (j : nat),
+  tbl_get t (f_version f) = Some r -> recorded hash HS r old ->
+  j < r_applied r ->
+  firstn j (f_stmts f) = firstn j old ->
+  firstn (S j) (f_stmts f) <> firstn (S j) old ->
+  hd false fs = false ->
+  forall o t' fs' es, execute hash hash_eqb HS f t fs = (o, t', fs', es) ->
+  o = OHistory (S j) \/
+  (concat (firstn (S j) (f_stmts f)) <> concat (firstn (S j) old) /\
+   HS (concat (firstn (S j) (f_stmts f))) = HS (concat (firstn (S j) old))).
+Proof. exact (C12_attribution_lemma hash hash_eqb HS hash_eqb_spec). Qed.
+
+(** 15, 16. The same, for histories in which the file also changes between the
+    attempts: [file_history f t] = attempts through the store under arbitrary
+    fault streams (only while the file is pending) interleaved with edits that
+    leave the recorded applied part alone (tail-only edits; any edit while no
+    revision exists). This is the "fails twice" history: attempt 1 stops at k+1,
+    the tail is fixed, attempt 2 applies more and stops at k2+1. Whatever the
+    history, the stored partial hashes are those of the statements really
+    applied ([file_history_stored_ok]), hence
+    - an edit of any applied statement (applied by whichever attempt) is refused
+      under every fault stream -- [C12_refuse_names_first_edited] says which
+      statement is named;
+    - a tail-only edit resumes and completes. *)
+Theorem C12_history_refuse :
+  forall (f f_new : file) (t : list (rev hash)) (r : rev hash),
+  file_history hash hash_eqb HS f t -> f_version f_new = f_version f ->
+  tbl_get t (f_version f) = Some r -> 0 < r_applied r -> r_applied r <> r_total r ->
+  firstn (r_applied r) (f_stmts f_new) <> firstn (r_applied r) (f_stmts f) ->
+  forall fs o t' fs' es, execute_st hash hash_eqb HS f_new t fs = (o, t', fs', es) ->
+  collision_at hash HS (f_stmts f) (f_stmts f_new) (r_applied r) \/
+  (exec_events es = [] /\ t' = t /\ o <> SExec ODone /\
+   (hd false fs = false -> hd false (tl fs) = false ->
+      exists i, o = SExec (OHistory i) /\ 1 <= i <= r_applied r)).
+Proof. exact (C12_history_refuse_lemma hash hash_eqb HS hash_eqb_spec). Qed.
+
+Theorem C12_history_tail :
+  forall (f f_new : file) (t : list (rev hash)) (r : rev hash),
+  file_history hash hash_eqb HS f t -> f_version f_new = f_version f ->
+  tbl_get t (f_version f) = Some r -> r_applied r <> r_total r ->
+  firstn (r_applied r) (f_stmts f_new) = firstn (r_applied r) (f_stmts f) ->
+  exists t' es r',
+    execute_st hash hash_eqb HS f_new t [] = (SExec ODone, t', [], es) /\
+    journal es = map (pair (f_version f_new)) (skipn (r_applied r) (f_stmts f_new)) /\
+    tbl_get t' (f_version f_new) = Some r' /\
+    r_applied r' = length (f_stmts f_new) /\ r_total r' = length (f_stmts f_new) /\ r_hashes r' = [] /\
+    (forall v', v' <> f_version f_new -> tbl_get t' v' = tbl_get t v').
+Proof. exact (C12_history_tail_lemma hash hash_eqb HS hash_eqb_spec). Qed.
+
 End C12.
 
 Print Assumptions C12_refuse.
 Print Assumptions C12_no_panic.
 Print Assumptions C12_tail_edit_resumes.
+Print Assumptions C12_store_read_exact.
+Print Assumptions C12_store_upsert_overwrites.
+Print Assumptions C12_store_lists_by_version.
+Print Assumptions C12_read_error_refuses.
+Print Assumptions C12_refuse_any_storage_fault.
+Print Assumptions C12_refuse_stops_apply.
+Print Assumptions C12_tail_edit_resumes_store.
+Print Assumptions C12_no_panic_store.
+Print Assumptions C12_refuse_cli_apply.
+Print Assumptions C12_tail_edit_cli_apply.
+Print Assumptions C12_progress_never_lost.
+Print Assumptions C12_end_to_end_refuse.
+Print Assumptions C12_end_to_end_tail.
+Print Assumptions C12_refuse_names_first_edited.
+Print Assumptions C12_history_refuse.
+Print Assumptions C12_history_tail.
 
 (** Non-vacuity: a concrete table/file meeting the hypotheses of 1 and 3,
     with [HS] the identity on byte strings (a legitimate instance). *)
@@ -81,3 +352,155 @@ Example C12_tail_nonvacuous :
   firstn (r_applied ex_rev) (f_stmts ex_file_tail) = firstn (r_applied ex_rev) ex_old /\
   fst (fst (fst (execute bytes bytes_eqb ex_HS ex_file_tail [ex_rev] []))) = ODone.
 Proof. vm_compute. repeat split; auto. Qed.
+
+(** ** the store: non-vacuity and the witness that clause (a) is needed *)
+Definition ex_file2 : file := mkFile [50%N] [[90%N]] false.
+
+Example C12_store_read_exact_nonvacuous :
+  read_revision bytes [ex_rev] [false] [49%N] = (RdRow ex_rev, []) /\
+  read_revision bytes [ex_rev] [false] [50%N] = (RdNotExist, []) /\
+  read_revision bytes [ex_rev] [true] [49%N] = (RdError, []).
+Proof. vm_compute. auto. Qed.
+
+Example C12_store_upsert_nonvacuous :
+  let r' := mkRev [49%N] 3 4 [] false 2%N in
+  exists t', write [ex_rev] [] r' = (true, t', [], EWrite r' true) /\
+             fst (read_revision bytes t' [] [49%N]) = RdRow r'.
+Proof. vm_compute. eexists; split; reflexivity. Qed.
+
+Example C12_read_error_nonvacuous :
+  execute_st bytes bytes_eqb ex_HS ex_file_tail [ex_rev] [true] = (SReadErr, [ex_rev], [], []).
+Proof. vm_compute. reflexivity. Qed.
+
+(** every single storage fault on the edited-prefix file: nothing executed, table unchanged *)
+Example C12_refuse_any_storage_fault_nonvacuous :
+  forallb (fun fs =>
+    match execute_st bytes bytes_eqb ex_HS ex_file_changed [ex_rev] fs with
+    | (o, t', _, es) =>
+        match exec_events es with [] => true | _ => false end &&
+        match t' with [r] => Nat.eqb (r_applied r) 2 && Nat.eqb (r_total r) 3 && Nat.eqb (length (r_hashes r)) 2 | _ => false end &&
+        match o with SExec ODone => false | _ => true end
+    end) [[]; [true]; [false; true]; [false; false; true]] = true /\
+  fst (fst (fst (execute_st bytes bytes_eqb ex_HS ex_file_changed [ex_rev] []))) = SExec (OHistory 2).
+Proof. vm_compute. auto. Qed.
+
+Example C12_refuse_stops_apply_nonvacuous :
+  apply_files bytes bytes_eqb ex_HS true [ex_file_changed; ex_file2] [ex_rev] [] =
+    (SExec (OHistory 2), [ex_rev], [], [EWrite ex_rev true; EWrite ex_rev true], []) /\
+  fst (fst (fst (fst (apply_files bytes bytes_eqb ex_HS false [ex_file_changed; ex_file2] [ex_rev] [])))) = SExec (OHistory 2).
+Proof. vm_compute. auto. Qed.
+
+Example C12_tail_store_nonvacuous :
+  fst (fst (fst (execute_st bytes bytes_eqb ex_HS ex_file_tail [ex_rev] []))) = SExec ODone /\
+  snd (apply_files bytes bytes_eqb ex_HS false [ex_file_tail; ex_file2] [ex_rev] []) =
+    [([49%N], [68%N]); ([49%N], [69%N]); ([50%N], [90%N])].
+Proof. vm_compute. auto. Qed.
+
+Example C12_refuse_cli_apply_nonvacuous :
+  let c := PendingModel.mkCfg PendingModel.Linear None true true in
+  cli_apply bytes bytes_eqb ex_HS false c 0 [ex_file_changed] [ex_rev] [] =
+    (CRun (SExec (OHistory 2)), [ex_rev], [], [EWrite ex_rev true; EWrite ex_rev true], []) /\
+  fst (fst (fst (fst (cli_apply bytes bytes_eqb ex_HS true c 0 [ex_file_changed] [ex_rev] [false; false; true])))) = CRun SReadErr /\
+  fst (fst (fst (fst (cli_apply bytes bytes_eqb ex_HS true c 0 [ex_file_tail] [ex_rev] [])))) = CRun (SExec ODone).
+Proof. vm_compute. auto. Qed.
+
+Example C12_tail_edit_cli_apply_nonvacuous :
+  let c := PendingModel.mkCfg PendingModel.Linear None true true in
+  let done := mkRev [49%N] 4 4 [] false 2%N in
+  r_applied ex_rev <> r_total ex_rev /\
+  snd (cli_apply bytes bytes_eqb ex_HS false c 0 [ex_file_tail] [ex_rev] []) = [([49%N], [68%N]); ([49%N], [69%N])] /\
+  snd (fst (fst (fst (cli_apply bytes bytes_eqb ex_HS false c 0 [ex_file_tail] [ex_rev] [])))) = [done] /\
+  cli_apply bytes bytes_eqb ex_HS false c 0 [ex_file_tail] [done] [] = (CPend PendingModel.PNoPending, [done], [], [], []).
+Proof. vm_compute. repeat split; auto; discriminate. Qed.
+
+(** a write fault after the first statement of the tail: one statement ran, Applied went from 2 to 2 (the
+    write of 3 failed) -- not back to 0; with the lax store of [C12_lax_lookup_refuted] the prefix is re-run *)
+Example C12_progress_never_lost_nonvacuous :
+  (let '(o, t', _, es) := execute_st bytes bytes_eqb ex_HS ex_file_tail [ex_rev] [false; false; false; true] in
+   (o, map (@r_applied bytes) t', journal es)) = (SExec OWriteErr, [2], [([49%N], [68%N])]) /\
+  (let '(o, t', _, es) := execute_st_lax bytes bytes_eqb ex_HS ex_file_tail [ex_rev] [true] in
+   (o, journal es)) = (SExec ODone, map (pair [49%N]) (f_stmts ex_file_tail)).
+Proof. vm_compute. auto. Qed.
+
+Example C12_store_lists_by_version_nonvacuous :
+  let a := mkRev [50%N] 1 1 [] false 2%N in
+  fst (read_revisions_f bytes [a; ex_rev] []) = Some [ex_rev; a] /\
+  fst (read_revisions_f bytes [a; ex_rev] [true]) = None.
+Proof. vm_compute. auto. Qed.
+
+(** [ex_rev] is what a first attempt on [ex_old] that fails at its third statement leaves behind *)
+Definition ex_file_old : file := mkFile [49%N] ex_old false.
+Example C12_end_to_end_nonvacuous :
+  after_attempts bytes bytes_eqb ex_HS ex_file_old [ex_rev] /\
+  f_version ex_file_changed = f_version ex_file_old /\ r_applied ex_rev <> r_total ex_rev /\
+  firstn (r_applied ex_rev) (f_stmts ex_file_changed) <> firstn (r_applied ex_rev) (f_stmts ex_file_old) /\
+  firstn (r_applied ex_rev) (f_stmts ex_file_tail) = firstn (r_applied ex_rev) (f_stmts ex_file_old).
+Proof.
+  split.
+  - eapply (AA_again bytes bytes_eqb ex_HS ex_file_old [] [false; false; false; false; false; false; true]).
+    + apply AA_first. reflexivity.
+    + intros r H. discriminate.
+    + vm_compute. reflexivity.
+  - vm_compute. repeat split; auto; discriminate.
+Qed.
+
+(** [ex_file_changed] = A C C against A B C with two applied: statement 2 is the first edited one;
+    a file cut to one statement is reported at statement 2 as well *)
+Example C12_refuse_names_first_edited_nonvacuous :
+  firstn 1 (f_stmts ex_file_changed) = firstn 1 ex_old /\
+  firstn 2 (f_stmts ex_file_changed) <> firstn 2 ex_old /\
+  fst (fst (fst (execute bytes bytes_eqb ex_HS ex_file_changed [ex_rev] []))) = OHistory 2 /\
+  fst (fst (fst (execute bytes bytes_eqb ex_HS (mkFile [49%N] [[65%N]] false) [ex_rev] []))) = OHistory 2 /\
+  fst (fst (fst (execute bytes bytes_eqb ex_HS (mkFile [49%N] [[66%N]; [66%N]; [67%N]] false) [ex_rev] []))) = OHistory 1.
+Proof. vm_compute. repeat split; auto; discriminate. Qed.
+
+(** a double failure: A B C fails at its 2nd statement; the tail becomes D E F (A D E F); the second attempt
+    applies D and E and fails at F: the stored revision records A D E, of both attempts *)
+Definition ex_file_mid : file := mkFile [49%N] [[65%N]; [68%N]; [69%N]; [70%N]] false.
+Example C12_history_nonvacuous :
+  exists t r,
+    file_history bytes bytes_eqb ex_HS ex_file_mid t /\
+    tbl_get t [49%N] = Some r /\ r_applied r = 3 /\ r_total r = 4 /\
+    r_hashes r = firstn 3 (sums bytes ex_HS (f_stmts ex_file_mid)) /\
+    (* D (applied by the second attempt) edited: refused, statement 2 named *)
+    fst (fst (fst (execute_st bytes bytes_eqb ex_HS (mkFile [49%N] [[65%N]; [71%N]; [69%N]; [70%N]] false) t []))) = SExec (OHistory 2) /\
+    (* tail fixed: completes *)
+    fst (fst (fst (execute_st bytes bytes_eqb ex_HS (mkFile [49%N] [[65%N]; [68%N]; [69%N]; [72%N]; [73%N]] false) t []))) = SExec ODone.
+Proof.
+  eexists _, _. split.
+  - eapply (FH_attempt bytes bytes_eqb ex_HS ex_file_mid _ [false; false; false; false; false; false; true]).
+    + eapply (FH_tail_edit bytes bytes_eqb ex_HS ex_file_old ex_file_mid).
+      * eapply (FH_attempt bytes bytes_eqb ex_HS ex_file_old [] [false; false; false; false; true]).
+        -- apply FH_first. reflexivity.
+        -- intros r H. discriminate.
+        -- vm_compute. reflexivity.
+      * reflexivity.
+      * intros r H. vm_compute in H. inversion H; subst. split; [vm_compute; discriminate|reflexivity].
+    + intros r H. vm_compute in H. inversion H; subst. vm_compute. discriminate.
+    + vm_compute. reflexivity.
+  - vm_compute. repeat split; reflexivity.
+Qed.
+
+(** Clause (a) is needed. With a store that reports a failing lookup as
+    "revision does not exist" ([execute_st_lax]: `if err != nil { return nil,
+    ErrRevisionNotExist }` in EntRevisions.ReadRevision), one transient error of
+    the SELECT makes the executor run the edited, partially applied file again
+    from its first statement and replace the stored revision by a fresh one:
+    the hypotheses of 5 hold, its conclusion does not (no collision exists for
+    [ex_HS], the identity). *)
+Theorem C12_lax_lookup_refuted :
+  exists (t : list (rev bytes)) (f : file) (r : rev bytes) (old : list bytes) (fs : list bool),
+    tbl_get t (f_version f) = Some r /\ 0 < r_applied r /\ recorded bytes ex_HS r old /\
+    firstn (r_applied r) (f_stmts f) <> firstn (r_applied r) old /\
+    (forall j, concat (firstn (S j) (f_stmts f)) <> concat (firstn (S j) old) ->
+               ex_HS (concat (firstn (S j) (f_stmts f))) <> ex_HS (concat (firstn (S j) old))) /\
+    exists t' fs' es,
+      execute_st_lax bytes bytes_eqb ex_HS f t fs = (SExec ODone, t', fs', es) /\
+      journal es = map (pair (f_version f)) (f_stmts f) /\ t' <> t.
+Proof.
+  exists [ex_rev], ex_file_changed, ex_rev, ex_old, [true].
+  split; [reflexivity|]. split; [vm_compute; auto|]. split; [vm_compute; auto|].
+  split; [vm_compute; discriminate|]. split; [intros j H; exact H|].
+  vm_compute. eexists _, _, _. split; [reflexivity|]. split; [reflexivity|discriminate].
+Qed.
+Print Assumptions C12_lax_lookup_refuted.
